@@ -44,6 +44,7 @@ def swarm_params(rng):
         "oob_bias": rng.choice([0.0, 0.1, 0.25]),
         "chain_rate": rng.choice([0.0, 0.1, 0.2, 0.35]),
         "burst_rate": rng.choice([0.0, 0.3, 0.6, 0.9]),
+        "wild_rate": rng.choice([0.0, 0.1, 0.2, 0.5]),
     }
 
 
@@ -61,14 +62,17 @@ def _val(rng, dtype, extreme=False):
 
 
 def gen_lengths(rng, P):
-    n = rng.randint(0, 8)
+    n = rng.randint(1, 8)
     if P["big_rows"]:
         n = rng.randint(15, 40)
-    if rng.random() < 0.04:
+    if rng.random() < 0.03:
         n = 0
     maxlen = 30 if P["big_len"] else 6
-    pattern = rng.choice(["none", "random", "random", "start", "end", "middle", "consecutive", "all"]) \
-        if rng.random() < max(P["empty_bias"], 0.05) * 2 else "none"
+    pattern = rng.choice(["random", "random", "random", "start", "end", "end", "middle", "consecutive",
+                          "consecutive", "all"]) \
+        if rng.random() < min(max(P["empty_bias"], 0.05) * 1.5, 0.7) else "none"
+    if pattern == "all" and rng.random() < 0.6:
+        pattern = "random"
     lens = [rng.randint(1, maxlen) for _ in range(n)]
     if n:
         if pattern == "random":
@@ -90,63 +94,90 @@ def gen_lengths(rng, P):
     return lens, pattern
 
 
-def gen_rowsel(rng, n, P, unique=False):
-    """Row selector over n rows -> (index encoding, class string)."""
-    kind = rng.choice(["sl", "sl", "sl", "list", "arr", "mask"])
-    if kind == "sl":
-        def bound():
-            r = rng.random()
-            if r < 0.3:
-                return None
-            if r < 0.3 + P["oob_bias"]:
-                return rng.choice([n + 1, n + 3, -n - 1, -n - 3, HUGE if rng.random() < 0.5 else -HUGE])
-            return rng.randint(-n, n) if n else rng.choice([0, 1, -1])
+def _window(rng, n, P, lo_bias=False):
+    """A slice (start, stop, step) over n >= 1 positions that selects at least one of them, written in one of
+    its many equivalent spellings (None, negative, beyond the ends).  lo_bias keeps the window start small, so
+    that most rows of a ragged array keep some elements under a column slice."""
+    r = rng.random()
+    if r < P["neg_step_bias"]:
+        step = rng.choice([-1, -1, -2, -3])
+    elif r < P["neg_step_bias"] + 0.3:
+        step = rng.choice([1, 2, 2, 3])
+    else:
         step = None
+    if step is not None and P["oob_bias"] and rng.random() < 0.03:
+        step = HUGE if step > 0 else -HUGE
+    if (step or 1) > 0:
+        i = rng.randint(0, min(n - 1, 2)) if lo_bias and rng.random() < 0.7 else rng.randint(0, n - 1)
+        k = rng.randint(i + 1, n) if rng.random() < 0.6 else n          # window [i, k)
+        a = rng.choice([i, i - n] + ([None, None] if i == 0 else []) +
+                       ([-n - 2, -HUGE] if i == 0 and P["oob_bias"] else []))
+        b = rng.choice([k] + ([k - n] if k < n else [None, None]) +
+                       ([n + 2, HUGE] if k == n and P["oob_bias"] else []))
+    else:
+        i = rng.randint(max(0, n - 3), n - 1) if lo_bias and rng.random() < 0.7 else rng.randint(0, n - 1)
+        k = rng.randint(-1, i - 1) if rng.random() < 0.6 else -1            # indices i, i-1, ..., k+1
+        a = rng.choice([i, i - n] + ([None, None] if i == n - 1 else []) +
+                       ([n + 2, HUGE] if i == n - 1 and P["oob_bias"] else []))
+        b = rng.choice(([k, k - n] if k >= 0 else [None, None]) +
+                       ([-n - 2, -HUGE] if k == -1 and P["oob_bias"] else []))
+    return a, b, step
+
+
+def _wild_bounds(rng, n, P):
+    """Completely free bounds: often an empty selection."""
+    def bound():
         r = rng.random()
-        if r < P["neg_step_bias"]:
-            step = rng.choice([-1, -1, -2, -3])
-        elif r < P["neg_step_bias"] + 0.25:
-            step = rng.choice([1, 2, 2, 3])
-        if step is not None and P["oob_bias"] and rng.random() < 0.03:
-            step = HUGE if step > 0 else -HUGE
-        a, b = bound(), bound()
+        if r < 0.3:
+            return None
+        if r < 0.3 + P["oob_bias"]:
+            return rng.choice([n + 1, n + 3, -n - 1, -n - 3, HUGE if rng.random() < 0.5 else -HUGE])
+        return rng.randint(-n, n) if n else rng.choice([0, 1, -1])
+    step = None
+    r = rng.random()
+    if r < P["neg_step_bias"]:
+        step = rng.choice([-1, -1, -2, -3])
+    elif r < P["neg_step_bias"] + 0.25:
+        step = rng.choice([1, 2, 2, 3])
+    return bound(), bound(), step
+
+
+def gen_rowsel(rng, n, P, unique=False):
+    """Row selector over n rows -> (index encoding, class string).  Most selectors keep at least one row (a chain
+    of selections would otherwise degenerate to empty arrays); a swarm-chosen share is completely free."""
+    kind = rng.choice(["sl", "sl", "sl", "list", "arr", "mask"])
+    wild = n == 0 or rng.random() < P.get("wild_rate", 0.15)
+    if kind == "sl":
+        a, b, step = _wild_bounds(rng, n, P) if wild else _window(rng, n, P)
         cls = "sl" + ("-" if (step or 1) < 0 else "+") + ("n" if abs(step or 1) > 1 else "1")
         return ["sl", a, b, step], cls
     if kind in ("list", "arr"):
         if n == 0:
             return [kind, []], kind + "0"
         if unique:
-            k = rng.randint(0, n)
+            k = rng.randint(0 if wild else 1, n)
             rows = rng.sample(range(n), k)
             rows = [r - n if rng.random() < 0.3 else r for r in rows]
         else:
-            k = rng.randint(0, n + 2)
+            k = rng.randint(0 if wild else 1, n + 2)
             rows = [rng.randint(-n, n - 1) for _ in range(k)]
         return [kind, rows], kind + ("0" if not rows else "")
-    mask = [1 if rng.random() < 0.6 else 0 for _ in range(n)]
+    mask = [1 if rng.random() < 0.65 else 0 for _ in range(n)]
+    if n and not wild and not any(mask):
+        mask[rng.randrange(n)] = 1
     if n and rng.random() < 0.15:
         return ["blist", mask], "mask"       # a plain Python list of bools
     return ["mask", mask], "mask"
 
 
 def gen_colslice(rng, maxlen, P):
-    def bound():
-        r = rng.random()
-        if r < 0.35:
-            return None
-        if r < 0.35 + P["oob_bias"]:
-            return rng.choice([maxlen + 1, maxlen + 4, -maxlen - 1, -maxlen - 4, HUGE if rng.random() < 0.5 else -HUGE])
-        return rng.randint(-maxlen, maxlen) if maxlen else rng.choice([0, 1, -1])
-    step = None
-    r = rng.random()
-    if r < P["neg_step_bias"]:
-        step = rng.choice([-1, -1, -2, -3])
-    elif r < P["neg_step_bias"] + 0.3:
-        step = rng.choice([1, 2, 2, 3])
-    if step is not None and P["oob_bias"] and rng.random() < 0.03:
-        step = HUGE if step > 0 else -HUGE
+    """Column slice for rows of length <= maxlen.  Mostly a window that leaves most rows non-empty."""
+    if maxlen == 0 or rng.random() < P.get("wild_rate", 0.15):
+        a, b, step = _wild_bounds(rng, maxlen, P)
+    else:
+        a, b, step = _window(rng, maxlen, P, lo_bias=True)
     cls = "c" + ("-" if (step or 1) < 0 else "+") + ("n" if abs(step or 1) > 1 else "1")
-    return ["sl", bound(), bound(), step], cls
+    return ["sl", a, b, step], cls
 
 
 class Generator:
